@@ -598,3 +598,113 @@ Theorem print_canon_file imp d :
   print_file_tokens (to_symtab (dfile_symtab imp (canon_file d))) (canon_file d)
   = print_file_tokens (to_symtab (dfile_symtab imp d)) d.
 Proof. unfold print_file_tokens. rewrite lay_canon_file. reflexivity. Qed.
+
+(* ------------------------------------------------------------------ the canonical file is well-formed again *)
+Lemma In_number_from {A B} (f : N -> A -> B) : forall l i y, In y (number_from f i l) -> exists j x, In x l /\ y = f j x.
+Proof.
+  induction l as [|a r IH]; intros i y H; [destruct H|]. cbn [number_from] in H. destruct H as [<-|H].
+  - exists i, a. split; [left; reflexivity|reflexivity].
+  - destruct (IH _ _ H) as (j & x & Hx & E). exists j, x. split; [right; exact Hx|exact E].
+Qed.
+
+Lemma Forall_number_from {A B} (f : N -> A -> B) (P : A -> Prop) (Q : B -> Prop) l i :
+  (forall j x, P x -> Q (f j x)) -> Forall P l -> Forall Q (number_from f i l).
+Proof.
+  intros H Hl. rewrite Forall_forall in *. intros y Hy. destruct (In_number_from f l i y Hy) as (j & x & Hx & ->).
+  apply H. apply Hl. exact Hx.
+Qed.
+
+Lemma canon_sopts_wf o : Forall wf_dopt o -> Forall wf_dopt (canon_sopts o).
+Proof. intro H. unfold canon_sopts. apply (Forall_number_from canon_opt wf_dopt wf_dopt); [intros j x Hx; exact Hx|apply Forall_isort; exact H]. Qed.
+Lemma canon_fopts_wf o : Forall wf_dopt o -> Forall wf_dopt (canon_fopts o).
+Proof. intro H. unfold canon_fopts. apply (Forall_number_from canon_opt wf_dopt wf_dopt); [intros j x Hx; exact Hx|do 2 apply Forall_isort; exact H]. Qed.
+
+Lemma canon_field_wf x pkg i f : wf_dfield x pkg f -> wf_dfield x pkg (canon_field i f).
+Proof. intros [Ht Ho]. split; [exact Ht|apply canon_fopts_wf; exact Ho]. Qed.
+
+Lemma canon_elem_wf x pkg : forall n e i, (ddepth e <= n)%nat -> wf_delem x pkg e -> wf_delem x pkg (set_key i (canon_elem e)).
+Proof.
+  induction n as [|n IH]; intros e i Hn Hw; [pose proof (ddepth_pos e); lia|].
+  destruct e as [f|k c nm o fs|k c nm o body|k c nm o vs|k c nm o ms].
+  - exact (canon_field_wf x pkg i f Hw).
+  - destruct Hw as [Ho Hf]. cbn [canon_elem set_key wf_delem]. split; [apply canon_sopts_wf; exact Ho|].
+    unfold canon_fields. apply (Forall_number_from canon_field (wf_dfield x pkg) (wf_dfield x pkg)); [intros; apply canon_field_wf; assumption|apply Forall_isort; exact Hf].
+  - apply wf_delem_msg in Hw. destruct Hw as [Ho Hb]. rewrite canon_elem_msg. cbn [set_key]. apply wf_delem_msg.
+    split; [apply canon_sopts_wf; exact Ho|]. unfold canon_body.
+    change (ddepth (DMsg k c nm o body)) with (S (ddepths body)) in Hn.
+    assert (G : forall l j, (forall e, In e l -> In e body) ->
+                wf_delems x pkg (number_from (fun j e => set_key j (canon_elem e)) j l)).
+    { induction l as [|d r IHr]; intros j Hin; [exact I|]. cbn [number_from wf_delems]. split.
+      - apply IH; [pose proof (ddepths_In body d (Hin d (or_introl eq_refl))); lia|].
+        apply (wf_delems_In x pkg body Hb). apply Hin. left; reflexivity.
+      - apply IHr. intros e He. apply Hin. right; exact He. }
+    apply G. intros e He. apply sorted_by_In in He. exact He.
+  - destruct Hw as [Ho Hv]. cbn [canon_elem set_key wf_delem]. split; [apply canon_sopts_wf; exact Ho|].
+    unfold canon_values. apply (Forall_number_from canon_value wf_dvalue wf_dvalue); [|apply Forall_isort; exact Hv].
+    intros j v [Hn' Ho']. split; [exact Hn'|apply canon_fopts_wf; exact Ho'].
+  - destruct Hw as [Ho Hm]. cbn [canon_elem set_key wf_delem]. split; [apply canon_sopts_wf; exact Ho|].
+    unfold canon_methods. apply (Forall_number_from canon_method (wf_dmethod x pkg) (wf_dmethod x pkg)); [|apply Forall_isort; exact Hm].
+    intros j m (A & B & C). split; [exact A|]. split; [exact B|apply canon_sopts_wf; exact C].
+Qed.
+
+Theorem canon_file_wf imp d : wf_dfile imp d -> wf_dfile imp (canon_file d).
+Proof.
+  intros (Hp & Hu & Hfo & Hx & Hb & Ht). pose proof (canon_file_tab imp d) as He.
+  set (x := dfile_symtab imp d) in *. set (x' := dfile_symtab imp (canon_file d)) in *.
+  unfold wf_dfile. fold x'. cbn [canon_file d_pkg d_fopts d_exts d_body].
+  split; [exact Hp|]. split; [exact (tab_equiv_unique x x' He Hu)|]. split; [exact Hfo|]. split; [|split].
+  - unfold canon_exts, flatten_groups. rewrite Forall_forall. intros [xn f] Hin.
+    apply in_flat_map in Hin as (g & Hg & Hf). apply in_map_iff in Hg as (g0 & <- & Hg0).
+    cbn [canon_group fst snd] in Hf. apply in_map_iff in Hf as (f' & E & Hf'). inversion E; subst xn f; clear E.
+    destruct (In_number_from canon_field _ _ _ Hf') as (j & a & Ha & ->).
+    rewrite Forall_forall in Hx. destruct (Hx _ (In_group_fields _ g0 a Hg0 Ha)) as (A & B & C). cbn [fst snd] in *.
+    split; [exact A|]. split; [apply canon_field_wf; exact (wf_dfield_equiv x x' _ _ He B)|exact C].
+  - apply (wf_delems_equiv x x' _ _ He). unfold canon_body.
+    assert (G : forall l j, (forall e, In e l -> In e (d_body d)) ->
+                wf_delems x (d_pkg d) (number_from (fun j e => set_key j (canon_elem e)) j l)).
+    { induction l as [|e r IHr]; intros j Hin; [exact I|]. cbn [number_from wf_delems]. split.
+      - apply (canon_elem_wf x (d_pkg d) (ddepth e)); [lia|]. apply (wf_delems_In x _ _ Hb). apply Hin. left; reflexivity.
+      - apply IHr. intros y Hy. apply Hin. right; exact Hy. }
+    apply G. intros e He'. apply sorted_by_In in He'. exact He'.
+  - unfold canon_body. rewrite Forall_forall. intros y Hy.
+    destruct (In_number_from _ _ _ _ Hy) as (j & e & He' & ->). apply sorted_by_In in He'.
+    rewrite Forall_forall in Ht. specialize (Ht e He'). destruct e; try destruct Ht; exact I.
+Qed.
+
+(* the canonical form is a fixed point of print + parse up to its own canonical form: in particular
+   the printed tokens of every further round are the same *)
+Corollary file_roundtrip_again imp d : wf_dfile imp d ->
+  parse_file_tokens imp (print_file_tokens (to_symtab (dfile_symtab imp (canon_file d))) (canon_file d))
+  = Some (canon_file (canon_file d)).
+Proof. intro Hw. apply file_roundtrip. apply canon_file_wf. exact Hw. Qed.
+
+(* ------------------------------------------------------------------ the statements of props/C05.v *)
+Theorem token_roundtrip imp D : wf_dfile imp D ->
+  let toks := print_file_tokens (to_symtab (dfile_symtab imp D)) D in
+  exists D', parse_file_tokens imp toks = Some D'
+    /\ desc_equiv D D'
+    /\ wf_dfile imp D'
+    /\ print_file_tokens (to_symtab (dfile_symtab imp D')) D' = toks.
+Proof.
+  intro Hw. exists (canon_file D). split; [exact (file_roundtrip imp D Hw)|].
+  split; [exact (canon_file_equiv D)|]. split; [exact (canon_file_wf imp D Hw)|exact (print_canon_file imp D)].
+Qed.
+
+Theorem text_roundtrip_partial (render : xsymtab -> dfile -> list N) (scan : list N -> option (list token)) :
+  (forall imp D, wf_dfile imp D ->
+     scan (render imp D) = Some (print_file_tokens (to_symtab (dfile_symtab imp D)) D)) ->
+  forall imp D, wf_dfile imp D ->
+    exists D', match scan (render imp D) with Some ts => parse_file_tokens imp ts | None => None end = Some D'
+      /\ desc_equiv D D'
+      /\ scan (render imp D') = scan (render imp D).
+Proof.
+  intros H imp D Hw. exists (canon_file D). rewrite (H imp D Hw).
+  split; [exact (file_roundtrip imp D Hw)|]. split; [exact (canon_file_equiv D)|].
+  rewrite (H imp (canon_file D) (canon_file_wf imp D Hw)). rewrite print_canon_file. reflexivity.
+Qed.
+
+Theorem order_laws (l : list (key3 * selem)) :
+  Permutation (isort (fun a b => key_less (fst a) (fst b)) l) l
+  /\ isort (fun a b => key_less (fst a) (fst b)) (isort (fun a b => key_less (fst a) (fst b)) l)
+     = isort (fun a b => key_less (fst a) (fst b)) l.
+Proof. split; [apply isort_perm|]. apply isort_idem. intros a b. apply key_less_asym. Qed.
